@@ -44,7 +44,10 @@ def step_coq(st):
     inits = Emitter.lst("(%d, %s)" % (i["sid"], Emitter.nlist(i["parties"])) for i in st["inits"])
     dests = Emitter.lst("(%d, %d, %s)" % (d["sid"], d["to"], Emitter.nlist(d["got"])) for d in st["dests"])
     panic = st["panic"] or any(r == "panic" for r in st["api"].values()) or bool(st.get("stuck"))
-    return "mkOStep (%s) %s %s %s %s %s %s %s %s %s" % (ev, api, keys(st["syncs"]), keys(st["rbcs"]), keys(st["cls"]), Emitter.b(st["dkg_running"]),
+    mp = "None"
+    if st.get("_map") is not None:
+        mp = "(Some %s)" % Emitter.lst("(%s, %d)" % (u, p) for u, p in sorted(st["_map"].items(), key=lambda x: int(x[0])))
+    return "mkOStep %s (%s) %s %s %s %s %s %s %s %s %s" % (mp, ev, api, keys(st["syncs"]), keys(st["rbcs"]), keys(st["cls"]), Emitter.b(st["dkg_running"]),
                                                         Emitter.lst(reached), inits, dests, Emitter.b(panic))
 
 
@@ -162,6 +165,8 @@ def monitor_c06(sc):
     mm = {int(u): p for u, p in sc["membership"].items()}
     plans = {}
     for i, st in enumerate(sc["steps"]):
+        if st.get("_map") is not None:
+            mm = {int(u): p for u, p in st["_map"].items()}
         if st["op"] == "start":
             plans[st["sid"]] = st["plan"]
         for ini in st["inits"]:
@@ -219,11 +224,28 @@ def run(pid, tier, seed):
             chk.violation("harness.txt", "harness failed (exit %d):\n%s" % (rc, out[-4000:]), no_input=True)
         return chk.finish()
     scen = vlib.read_jsonl(path)
+    # a "remap" step (the application's membership map changes between sessions) is folded into the step that follows it
+    remaps = 0
+    for sc in scen:
+        steps, pending = [], None
+        for st in sc["steps"]:
+            if st["op"] == "remap":
+                pending = st["map"]
+                remaps += 1
+                continue
+            if pending is not None:
+                st["_map"] = pending
+                pending = None
+            steps.append(st)
+        sc["steps"] = steps
+    chk.cov["membership_changes_between_sessions"] = remaps
     if pid in ("C11", "C12"):
         # refusing two replicas of one party is C06's clause: histories containing such a session are C06's business only
         def has_dup(sc):
             mm = {int(u): p for u, p in sc["membership"].items()}
             for st in sc["steps"]:
+                if st.get("_map") is not None:
+                    mm = {int(u): p for u, p in st["_map"].items()}
                 if st["op"] == "start":
                     pids = [mm.get(u, 0) for u in st["plan"]["members"]]
                     if len(set(pids)) != len(pids):
